@@ -29,6 +29,7 @@ def run(ctx, res):
     R.run_sequences(ctx, res, "C08", seqs, "seq")
     R.run_sequences(ctx, res, "C08", R.gen_sequences(ctx, 40 if ctx.thorough else 8, 4, WEIGHTS), "seqfd5", extra_fds=(5,))
     R.run_sequences(ctx, res, "C08", R.captured_builtin_seqs(ctx), "builtin")
+    R.run_sequences(ctx, res, "C08", R.builtin_empty_text_seqs(ctx), "builtinempty")
     R.run_sequences(ctx, res, "C08", R.l3_cases(ctx), "l3", strace=True)
     R.ulimit_runs(ctx, res, "C08")
     R.capture_fail_runs(ctx, res, "C08")
